@@ -79,48 +79,62 @@ ADD1 = dict(id='add_global1', sig=r'void add_to_global_retired_nodes\(deletable_
 # ---- the 32 annotated synchronisation points: the memory order written at each of them is extracted from the text as a constant ----
 MO = r'(std::memory_order_\w+)'
 def ORD(name, regex): return dict(name='ORD_' + name, file=F, regex=regex, subst=[(r'std::memory_order_', 'mo_')])
+# a point is identified by its function and the cell/method it accesses (not by the exact argument text), so that edits of the arguments stay decidable
+CX = r'compare_exchange_(?:weak|strong)'
+IN_PUSH = r'void push\(thread_control_block\* block\).*?'
+IN_REMOVE = r'bool remove\(marked_ptr block\).*?'
+IN_ADD = r'void add_to_global_retired_nodes\(deletable_object_with_stamp\* first_chunk.*?'
+IN_STEAL = r'steal_global_retired_nodes\(\)\s*\{.*?'
+IN_HS = r'stamp_t head_stamp\(\).*?'
+IN_TS = r'stamp_t tail_stamp\(\).*?'
+IN_UTS = r'void update_tail_stamp\(size_t stamp\).*?'
 IN_RFPL = r'remove_from_prev_list\(marked_ptr& prev.*?'
 IN_RFNL = r'remove_from_next_list\(marked_ptr prev.*?'
 IN_ROS = r'remove_or_skip_marked_block\(marked_ptr& next.*?'
+IN_SAVE = r'static void save_next_as_last_and_move_next_to_next_prev\(.*?'
+IN_MN = r'static bool mark_next\(.*?'
+ANY = r'[^;]*?'
+SUCC = ANY + MO + r',\s*std::memory_order_\w+\)'        # success order of a two-order compare_exchange
+FAIL = ANY + r'std::memory_order_\w+,\s*' + MO + r'\)'   # failure order
 SYNC = [
-  ORD('1', r'block->next\.store\(make_clean_marked\(head, block->next\), ' + MO + r'\)'),
-  ORD('2', r'head->stamp\.fetch_add\(StampInc, ' + MO + r'\)'),
-  ORD('3', r'block->stamp\.store\(pending_stamp, ' + MO + r'\)'),
-  ORD('4', r'block->prev\.store\(my_prev, ' + MO + r'\)'),
-  ORD('5', r'head->prev\.compare_exchange_weak\(\s*head_prev, make_marked\(block, head_prev\), ' + MO + r', std::memory_order_\w+\)'),
-  ORD('6', r'block->stamp\.store\(stamp, ' + MO + r'\)'),
-  ORD('7', r'auto link = my_prev->next\.load\(' + MO + r'\)'),
-  ORD('8', r'my_prev->next\.compare_exchange_weak\(\s*link, make_marked\(block, link\), ' + MO + r', std::memory_order_\w+\)'),
-  ORD('8f', r'my_prev->next\.compare_exchange_weak\(\s*link, make_marked\(block, link\), std::memory_order_\w+, ' + MO + r'\)'),
-  ORD('9', r'set_mark_flag\(block->prev, ' + MO + r'\)'),
-  ORD('10', r'global_retired_nodes\.compare_exchange_weak\(\s*n, first_chunk, ' + MO + r', std::memory_order_\w+\)'),
-  ORD('11', r'global_retired_nodes\.exchange\(nullptr, ' + MO + r'\)'),
-  ORD('12', r'return head->stamp\.load\(' + MO + r'\)'),
-  ORD('13', r'return tail->stamp\.load\(' + MO + r'\)'),
-  ORD('14', r'auto last = tail->next\.load\(' + MO + r'\)'),
-  ORD('15', r'auto last_prev = last->prev\.load\(' + MO + r'\)'),
-  ORD('16', r'tail->stamp\.compare_exchange_weak\(tail_stamp, stamp, ' + MO + r'\)'),
+  ORD('1', IN_PUSH + r'block->next\.store\(' + ANY + MO + r'\)'),
+  ORD('2', IN_PUSH + r'head->stamp\.fetch_add\(' + ANY + MO + r'\)'),
+  ORD('3', IN_PUSH + r'block->stamp\.store\(' + ANY + MO + r'\)'),
+  ORD('4', IN_PUSH + r'block->prev\.store\(' + ANY + MO + r'\)'),
+  ORD('5', IN_PUSH + r'head->prev\.' + CX + r'\(' + SUCC),
+  ORD('6', IN_PUSH + r'block->stamp\.store\(.*?block->stamp\.store\(' + ANY + MO + r'\)'),
+  ORD('7', IN_PUSH + r'my_prev->next\.load\(' + MO + r'\)'),
+  ORD('8', IN_PUSH + r'my_prev->next\.' + CX + r'\(' + SUCC),
+  ORD('8f', IN_PUSH + r'my_prev->next\.' + CX + r'\(' + FAIL),
+  ORD('9', IN_REMOVE + r'set_mark_flag\(block->prev, ' + MO + r'\)'),
+  ORD('10', IN_ADD + r'global_retired_nodes\.' + CX + r'\(' + SUCC),
+  ORD('11', IN_STEAL + r'global_retired_nodes\.(?:exchange\(' + ANY + r'|load\()' + MO + r'\)(?=\s*;)'),   # the access that takes the list
+  ORD('12', IN_HS + r'->stamp\.load\(' + MO + r'\)'),
+  ORD('13', IN_TS + r'->stamp\.load\(' + MO + r'\)'),
+  ORD('14', IN_UTS + r'tail->next\.load\(' + MO + r'\)'),
+  ORD('15', IN_UTS + r'last->prev\.load\(' + MO + r'\)'),
+  ORD('16', IN_UTS + r'tail->stamp\.' + CX + r'\(' + ANY + MO + r'\)'),
   ORD('17', IN_RFPL + r'\sprev = prev->prev\.load\(' + MO + r'\)'),
   ORD('18', IN_RFPL + r'auto next_prev = next->prev\.load\(' + MO + r'\)'),
   ORD('19', IN_RFPL + r'auto next_stamp = next->stamp\.load\(' + MO + r'\)'),
   ORD('20', IN_RFPL + r'next = next->next\.load\(' + MO + r'\)'),
-  ORD('21', r'next->prev\.compare_exchange_strong\(\s*next_prev, make_marked\(prev\.get\(\), next_prev\), ' + MO + r', std::memory_order_\w+\)'),
+  ORD('21', IN_RFPL + r'next->prev\.' + CX + r'\(' + SUCC),
   ORD('22', IN_RFNL + r'auto next_prev = next->prev\.load\(' + MO + r'\)'),
   ORD('23', IN_RFNL + r'auto next_stamp = next->stamp\.load\(' + MO + r'\)'),
   ORD('24', IN_RFNL + r'next = next->next\.load\(' + MO + r'\)'),
-  ORD('25', r'auto prev_next = prev->next\.load\(' + MO + r'\)'),
+  ORD('25', IN_RFNL + r'auto prev_next = prev->next\.load\(' + MO + r'\)'),
   ORD('26', IN_RFNL + r'\sprev = prev->prev\.load\(' + MO + r'\)'),
-  ORD('27', r'prev->next\.compare_exchange_weak\(prev_next, new_next, ' + MO + r', std::memory_order_\w+\)'),
-  ORD('28', r'last->prev\.compare_exchange_strong\(\s*next, make_marked\(next_prev\.get\(\), next\), ' + MO + r', std::memory_order_\w+\)'),
+  ORD('27', IN_RFNL + r'prev->next\.' + CX + r'\(' + SUCC),
+  ORD('28', IN_ROS + r'last->prev\.' + CX + r'\(' + SUCC),
   ORD('29', IN_ROS + r'next = next->next\.load\(' + MO + r'\)'),
-  ORD('30', r'size_t next_prev_stamp = next_prev->stamp\.load\(' + MO + r'\)'),
-  ORD('31', r'auto link = block->next\.load\(' + MO + r'\)'),
-  ORD('32f', r'block->next\.compare_exchange_weak\(\s*link, marked_ptr\(link\.get\(\), mark \| DeleteMark\), std::memory_order_\w+, ' + MO + r'\)'),
+  ORD('30', IN_SAVE + r'next_prev->stamp\.load\(' + MO + r'\)'),
+  ORD('31', IN_MN + r'block->next\.load\(' + MO + r'\)'),
+  ORD('32f', IN_MN + r'block->next\.' + CX + r'\(' + FAIL),
 ]
 
 UW_SEQ = ['sq_push.0:3', 'sq_push.1:3', 'sq_set_mark_flag.0:2', 'sq_mark_next.0:2', 'sq_remove_from_prev_list.0:2', 'sq_remove_from_next_list.0:2',
           'sq_update_tail_stamp.0:2', 'sq_add_global2.0:2']
-UW_MID = ['sq_push.0:3', 'sq_push.1:3', 'sq_set_mark_flag.0:2', 'sq_mark_next.0:2', 'sq_remove_from_prev_list.0:6', 'sq_remove_from_next_list.0:6',
+UW_MID = ['sq_push.0:3', 'sq_push.1:3', 'sq_set_mark_flag.0:2', 'sq_mark_next.0:2', 'sq_remove_from_prev_list.0:4', 'sq_remove_from_next_list.0:3',
           'sq_update_tail_stamp.0:2', 'sq_add_global2.0:2']
 
 UNIT = dict(
@@ -132,7 +146,7 @@ UNIT = dict(
         'the numbered comments rely on are checked on the text by stampq.sync.*); by-reference marked_ptr&/concurrent_ptr& parameters become pointers; '
         'WITH_PERF_COUNTER undefined (INC_PERF_CNT/PERF_COUNTER dropped, iterations.inc() becomes the ghost iteration counter XV_ITER()); '
         'deletable_object_with_stamp is struct node {next_chunk}; `new thread_control_block()` is a ghost allocator handing out zero-initialised pool blocks; '
-        'roles are fixed WLOG (block 1 = tail, 2 = head, 3..5 = list blocks oldest first, 6/7 outside); in INT runs the code\'s own assert()s are not checked '
+        'roles are fixed WLOG (block 1 = tail, 2 = head, 3.. = list blocks oldest first, the last one outside); in INT runs the code\'s own assert()s are not checked '
         '(the rely is far weaker than the algorithm\'s invariant) and a null/wild block pointer reads a junk block instead of being a violation',
   assumptions=[
     'INT runs use the rely "other threads write any well-typed value into any cell at any time": only commit obligations (what a CAS expects / installs, in which order) are decided there, '
@@ -178,6 +192,16 @@ UNIT = dict(
          note='SEQ, any quiescent queue of 0..3 blocks (arbitrary stamps/tags), arbitrary leftovers in the pushed block; loops unwound completely'),
     dict(id='remove', entry='h_remove', unwindset=UW_SEQ, cls='shape-complete', unwind_obligation='stampq.remove.terminates',
          note='SEQ, any block of any quiescent queue of 1..3 blocks; loops unwound completely'),
+    dict(id='mid_push', entry='h_mid', unwindset=UW_MID, defs={'XV_MID_OP': 0}, flags=['--object-bits', '10'], cls='shape-complete', unwind_obligation='stampq.push.terminates',
+         note='SEQ push from mid-operation states: queue of 1..3 blocks with a pending / not yet next-linked newest block and/or a block whose remover stalled after marking or half-way through unlinking'),
+    dict(id='mid_remove_1', entry='h_mid', unwindset=UW_MID, defs={'XV_MID_OP': 1, 'XV_N': 1, 'LMAX': '1u'}, flags=['--object-bits', '10'], cls='shape-complete', unwind_obligation='stampq.remove.terminates',
+         note='SEQ remove from mid-operation states, 1 block'),
+    dict(id='mid_remove_2a', entry='h_mid', unwindset=UW_MID, defs={'XV_MID_OP': 1, 'XV_N': 2, 'LMAX': '2u', 'XV_K': 0}, flags=['--object-bits', '10'], cls='shape-complete', unwind_obligation='stampq.remove.terminates',
+         note='... 2 blocks, removing the older one (helping a pending push of the newer one, resuming a stalled removal, removing next to a marked / half-unlinked block)'),
+    dict(id='mid_remove_2b', entry='h_mid', unwindset=UW_MID, defs={'XV_MID_OP': 1, 'XV_N': 2, 'LMAX': '2u', 'XV_K': 1}, flags=['--object-bits', '10'], cls='shape-complete', unwind_obligation='stampq.remove.terminates',
+         note='... 2 blocks, removing the newer one (helping a marked older neighbour out of the list, being last behind a half-unlinked block)'),
+    dict(id='mid_remove_3', entry='h_mid', unwindset=UW_MID, defs={'XV_MID_OP': 1, 'XV_N': 3}, flags=['--object-bits', '10'], cls='shape-complete', unwind_obligation='stampq.remove.terminates',
+         tiers=['thorough'], timeout=1800, note='... 3 blocks'),
     dict(id='global', entry='h_global', unwindset=UW_SEQ, cls='unbounded', note='add_to_global_retired_nodes (both overloads) / steal_global_retired_nodes, SEQ'),
     dict(id='global_int', entry='h_global_int', mode='INT', cls='unbounded', note='other threads replace the global list head at any time; CAS retry loop cut by invariant ADDG'),
     dict(id='push_int', entry='h_push_int', mode='INT', cls='unbounded', note='push under the rely "any well-typed write to any cell at any time" (own stamp: only helping); both loops cut by invariants'),
@@ -210,6 +234,11 @@ UNIT = dict(
     'stampq.remove.flags_own_stamp': dict(deciding=True, text='remove writes its own stamp exactly once, after unlinking: the value just read plus NotInList'),
     'stampq.remove.terminates': dict(deciding=True, text='C16: remove alone on a quiescent queue ends after one iteration of each unlink loop, no CAS fails (plus complete unwinding)'),
     'stampq.tail_stamp.lower_bound': dict(deciding=True, text='after any SEQ operation tail_stamp() <= stamp of every block in the list < head_stamp()'),
+    'stampq.update_tail.source': dict(deciding=True, text='[SEQ+INT] tail->stamp is raised only to the caller\'s guess or to the stamp just read from the block tail->next points to; to head\'s stamp only after head->prev\'s tag was renewed by a successful CAS (a push that already fetched an older stamp then fails its publishing CAS and retries)'),
+    'stampq.mid.push_links': dict(deciding=True, text='SEQ from mid-operation states: push links the block at the head end (head->prev, block->prev = old newest, block->next = head, old newest\'s next unless that is marked), the prev chain from head still contains every block in stamp order and reaches tail, the next chain from tail still reaches head'),
+    'stampq.mid.remove_unlinks': dict(deciding=True, text='SEQ from mid-operation states: after remove the block is out of the prev chain, which still contains every block whose removal has not begun (strictly decreasing stamps, ends at tail); no live block\'s next leads to it; it carries NotInList and both marks; other stamps unchanged except a pending stamp helped to its final value'),
+    'stampq.mid.remove_last_iff': dict(deciding=True, text='SEQ from mid-operation states: remove returns true iff the block was the oldest one (counting a block already taken out of the prev list as gone); then tail->stamp ends above the removed stamp, otherwise it is untouched'),
+    'stampq.mid.lower_bound': dict(deciding=True, text='SEQ from mid-operation states: afterwards tail->stamp <= (final) stamp of every block whose removal has not begun < head->stamp; tail->stamp never decreases'),
     'stampq.store.own_only': dict(deciding=True, text='[SEQ+INT] plain stores go only to the caller\'s own block (push: next, stamp, prev, stamp; remove: stamp); every other shared cell is written by CAS / fetch_add only'),
     'stampq.cas.expected_read': dict(deciding=True, text='[SEQ+INT] the expected value of every CAS on a prev / next / stamp cell is the value this thread observed last in that very cell (load, own write, or reload of a failed CAS)'),
     'stampq.cas.link_change': dict(deciding=True, text='[SEQ+INT] a CAS on a prev / next cell either sets just the delete bit, or replaces an unmarked link by an unmarked link with the tag moved on by one: a marked link is never redirected or unmarked'),
@@ -219,6 +248,8 @@ UNIT = dict(
   },
   loop_obligation={'SMF': 'stampq.cas.expected_read', 'MN': 'stampq.cas.expected_read', 'UTS': 'stampq.cas.expected_read', 'RFPL': 'stampq.cas.link_change', 'RFNL': 'stampq.cas.link_change',
                    'PUSH1': 'stampq.push.publish_order', 'PUSH2': 'stampq.cas.expected_read', 'ADDG': 'stampq.global.conserve'},
+  replays={k: dict(src='replay_stampq.cpp') for k in ['stampq.push.fresh_stamp', 'stampq.push.links', 'stampq.remove.unlinks', 'stampq.remove.last_iff', 'stampq.tail_stamp.lower_bound',
+                                                     'stampq.update_tail.source', 'stampq.mid.push_links', 'stampq.mid.remove_unlinks', 'stampq.mid.remove_last_iff', 'stampq.mid.lower_bound']},
   canaries=['encoding.done', 'marks.clean_of_marked', 'marks.clean_of_clean', 'stamps.done', 'sync.done', 'mark.set_already', 'mark.set_new', 'mark.next_true', 'mark.next_false', 'ctor.done',
             'push.empty', 'push.full', 'remove.last_nonempty', 'remove.last_empty', 'remove.last_empty_head_stamp', 'remove.newest', 'remove.middle',
             'global.add_nonempty', 'global.add_empty', 'global.add_single', 'global.steal_some', 'global.steal_none',
@@ -226,5 +257,6 @@ UNIT = dict(
             'push_int.done', 'push_int.linked_next', 'push_int.next_left_to_helpers', 'remove_int.true', 'remove_int.false',
             'mark_int.set_new', 'mark_int.set_already', 'mark_int.next_true', 'mark_int.next_false', 'uts_int.raised', 'uts_int.not_raised', 'uts_int.head_prev_bump',
             'rfpl_int.true', 'rfpl_int.false', 'rfpl_int.link_prev_cas', 'rfpl_int.mark_next_cas', 'rfpl_int.help_cas', 'rfpl_int.cas_failed',
+            'mid.push_after_pending', 'mid.push_after_marked_newest', 'mid.resumed_removal', 'mid.half_unlinked', 'mid.helped_pending', 'mid.helped_marked_out', 'mid.last_behind_unlinked',
             'rfnl_int.done', 'rfnl_int.link_prev_cas', 'rfnl_int.link_next_cas', 'rfnl_int.mark_next_cas', 'rfnl_int.help_cas'],
 )
